@@ -231,7 +231,8 @@ Lemma walks_agree pats node :
     = keep_leaves (docker_walk excl ptext m pats rp node).
 Proof.
   set (ign := dock_ignorer excl ptext m pats).
-  induction node as [c IHc|d|t|] using fnode_ind2; intros rp mask Hmask Hfree; try reflexivity.
+  induction node as [c IHc|d|t| |] using fnode_ind2; intros rp mask Hmask Hfree; try reflexivity;
+    try (destruct mask; reflexivity).
   rewrite scan_node_dir, docker_walk_dir.
   destruct (scan_list ign rp mask c) as [es evs] eqn:Hsl. cbn [fst].
   rewrite leaves_at_dirkind.
@@ -261,9 +262,10 @@ Proof.
     pose proof (mfm_continue pats q (is_fdir ch)) as Hct.
     destruct (scan_child_spec ign rp mask n ch) as [[Hk H]|[(Hk & Hdec & H)|(Hk & mask' & Hdec & H)]];
       rewrite Hsc in H; injection H as -> ->; try fold q in Hdec.
-    + (* unsupported kind *)
-      subst ch. cbn [is_leaf is_fdir andb leaves_at entries filter app].
-      destruct (overlay _ mask); reflexivity.
+    + (* unsupported kind or unencodable name: never a file or link *)
+      destruct ch; try discriminate; cbn [is_fdir andb];
+        (destruct mask; cbn [bad_name_entry is_leaf leaves_at entries filter app];
+         destruct (overlay _ _); reflexivity).
     + (* pruned by the walk *)
       unfold ign, dock_ignorer in Hdec. rewrite Hst, Hct in Hdec.
       cbn [is_leaf leaves_at entries filter app].
@@ -294,7 +296,7 @@ Proof.
       destruct Hm' as [Hm' Hpre].
       pose proof (Hch q mask' ltac:(rewrite Hm', Hstep; reflexivity) Hfree_ch) as IHch.
       fold ign in IHch. fold q. rewrite IHch.
-      destruct ch as [c'|dg|tg|]; [| | |congruence].
+      destruct ch as [c'|dg|tg| |]; [| | |discriminate|discriminate].
       * (* directory *)
         assert (Hnl : is_leaf (fst (scan_node ign q mask' (FDir c'))) = false).
         { rewrite scan_node_dir. destruct (scan_list ign q mask' c'). destruct mask'; reflexivity. }
@@ -345,8 +347,8 @@ Lemma dir_kinds_agree pats node :
       end.
 Proof.
   set (ign := dock_ignorer excl ptext m pats).
-  induction node as [c IHc|d|t|] using fnode_ind2; intros rp mask Hmask Hfree q e Hin;
-    try (cbn in Hin; destruct Hin).
+  induction node as [c IHc|d|t| |] using fnode_ind2; intros rp mask Hmask Hfree q e Hin;
+    try (cbn in Hin; destruct Hin); try (destruct mask; cbn in Hin; destruct Hin).
   rewrite scan_node_dir in Hin.
   destruct (scan_list ign rp mask c) as [es evs] eqn:Hsl. cbn [fst] in Hin.
   assert (Hin' : In (q, e) (entries_list rp es)).
@@ -368,11 +370,14 @@ Proof.
     { intros v f H. apply (Hfree v f). cbn [fnodes_list]. right. apply in_or_app. left. exact H. }
     destruct (scan_child_spec ign rp mask n ch) as [[Hk H]|[(Hk & Hdec & H)|(Hk & mask' & Hdec & H)]];
       rewrite Hsc in H; injection H as -> ->.
-    + destruct Hin as [[= <- <-]|Hin]; [exact I|]. cbn [entries app] in Hin. exact (IHl es' evs' eq_refl Hin).
+    + destruct Hin as [[= <- <-]|Hin]; [destruct ch; try exact I; destruct mask; exact I|].
+      assert (Hnone : entries (n :: rp) (match ch with FBadName => bad_name_entry mask | _ => EUntracked end) = []).
+      { destruct ch; try reflexivity. destruct mask; reflexivity. }
+      rewrite Hnone in Hin. cbn [app] in Hin. exact (IHl es' evs' eq_refl Hin).
     + destruct Hin as [[= <- <-]|Hin]; [exact I|]. cbn [entries app] in Hin. exact (IHl es' evs' eq_refl Hin).
     + pose proof (child_mask pats rp n ch mask mask' Hmask Hkq Hdec) as Hm'.
       destruct Hin as [[= <- <-]|Hin].
-      * destruct ch as [c'|dg|tg|]; try exact I.
+      * destruct ch as [c'|dg|tg| |]; try exact I; try (destruct mask'; exact I).
         rewrite scan_node_dir. destruct (scan_list ign (n :: rp) mask' c'). cbn [fst].
         destruct mask'; [symmetry; exact Hm'|symmetry; exact Hm'].
       * apply in_app_or in Hin. destruct Hin as [Hin|Hin]; [|exact (IHl es' evs' eq_refl Hin)].
